@@ -22,7 +22,22 @@ pub struct NetCfg {
     pub c2s_lat_max_ns: u64,
     /// hard cap on bytes accepted per write call (0 = none)
     pub wr_cap: usize,
+    /// which io::ErrorKind an injected transport failure reports (index into ERR_KINDS; 0 = the usual
+    /// ConnectionReset on reads / BrokenPipe on writes)
+    pub err_kind: usize,
 }
+
+/// Error kinds a dying transport may report: none of them means "try again later".
+pub const ERR_KINDS: [io::ErrorKind; 8] = [
+    io::ErrorKind::ConnectionReset,
+    io::ErrorKind::TimedOut,
+    io::ErrorKind::ConnectionAborted,
+    io::ErrorKind::BrokenPipe,
+    io::ErrorKind::NotConnected,
+    io::ErrorKind::UnexpectedEof,
+    io::ErrorKind::PermissionDenied,
+    io::ErrorKind::Other,
+];
 
 #[derive(Clone, Debug, Default)]
 pub struct NetStats {
@@ -257,7 +272,8 @@ impl Write for SimStream {
         n.stats.writes += 1;
         if let Some(at) = n.wr_err_at_call {
             if n.write_calls >= at && n.wr_err.is_none() {
-                n.wr_err = Some(io::ErrorKind::BrokenPipe);
+                let k = if n.cfg.err_kind == 0 { io::ErrorKind::BrokenPipe } else { ERR_KINDS[n.cfg.err_kind % ERR_KINDS.len()] };
+                n.wr_err = Some(k);
                 n.stats.wr_err_injected += 1;
             }
         }
